@@ -177,3 +177,12 @@ pub proof fn lemma_tab_remove<D>(o: DenseTab, n: DenseTab, od: Seq<D>, nd: Seq<D
 pub open spec fn map_val<T>(m: Map<Index, SyncUnsafeCell<T>>, id: Index) -> T {
     if m.dom().contains(id) { m[id].cv() } else { arbitrary() }
 }
+
+// SPECIFICATION of the slice view (trait SliceAccess<T>, src/storage/storages.rs:18-27; its methods have no bodies there):
+// as_slice() exposes exactly `slice_view()`
+pub trait SliceAccess<T> {
+    type Element;
+    spec fn slice_view(&self) -> Seq<Self::Element>;
+    fn as_slice(&self) -> (r: &[Self::Element])
+        ensures /*@L:trait.as_slice.view*/ r@ == self.slice_view() /*@E*/;
+}
